@@ -31,6 +31,12 @@ UPSTREAM = ('plain', 'map', 'reversed', 'concat', 'items', 'reversed-touched',
             'nested-touched')
 
 
+def key_of(i, n):
+    """Key of example i in a dict-backed dataset of n examples (unique, not
+    in sorted order)."""
+    return f'k{(i * 7 + 3) % 100:02d}' if n <= 100 else f'k{(i * 7 + 3) % 1009:04d}'
+
+
 def make(ld, vals, backing, upstream):
     """Dataset of dict examples {'id': i, 'v': vals[i]}; returns (ds, getter)
     where getter maps a delivered example to (id, v)."""
@@ -38,7 +44,7 @@ def make(ld, vals, backing, upstream):
     exs = [{'id': i, 'v': v} for i, v in enumerate(vals)]
     if backing == 'dict':
         # keys deliberately not in sorted order
-        ds = ld.new({f'k{(i * 7 + 3) % 100:02d}': e for i, e in enumerate(exs)})
+        ds = ld.new({key_of(i, n): e for i, e in enumerate(exs)})
     else:
         ds = ld.new(exs)
     get = lambda e: (e['id'], e['v'])
@@ -157,7 +163,7 @@ def check_sort(ld, vals, backing, upstream, reverse, res):
                 res.violation('sorted-keys-raised', case, exc_sig(e), sig=sig)
             return
         res.count('sorted_items_checked')
-        want = [(f'k{(i * 7 + 3) % 100:02d}', i) for i, _ in out]
+        want = [(key_of(i, len(vals)), i) for i, _ in out]
         got = [(k, e['id']) for k, e in items]
         if got != want or (keys is not None and keys != [k for k, _ in want]):
             res.violation('sorted-keys-detached', case,
@@ -290,7 +296,7 @@ def check_groupby(ld, vals, backing, upstream, idkind, res):
             except BaseException as e:
                 res.violation('group-items-raised', case, exc_sig(e), sig=sig)
                 return
-            if any(kk != f'k{(i * 7 + 3) % 100:02d}' for kk, i in its):
+            if any(kk != key_of(i, len(vals)) for kk, i in its):
                 res.violation('group-keys-detached', case, {'items': its}, sig=sig)
                 return
             try:
@@ -330,6 +336,14 @@ def run_shard(spec, res):
             for vals in itertools.product((0, 1, 2), repeat=n):
                 for reverse in (False, True):
                     check_sort(ld, vals, spec['backing'], spec['upstream'], reverse, res)
+        # a few hundred examples with many ties (sizes around 2^8)
+        import random as _r
+        rr = _r.Random(spec['seed'] * 7 + len(spec['name']))
+        for n in (255, 256, 257, 700):
+            vals = tuple(rr.randrange(0, 9) for _ in range(n))
+            for reverse in (False, True):
+                check_sort(ld, vals, spec['backing'], spec['upstream'], reverse, res)
+                res.count('large_sorts_checked')
         res.sample({'op': 'sort', 'vals': [2, 0, 2, 1], 'backing': spec['backing'],
                     'upstream': spec['upstream'], 'reverse': True})
     elif spec['what'] == 'group':
@@ -338,6 +352,13 @@ def run_shard(spec, res):
                 kinds = GROUP_IDS if n <= L - 2 else ('int', 'none-mixed')
                 for idkind in kinds:
                     check_groupby(ld, vals, spec['backing'], spec['upstream'], idkind, res)
+        import random as _r
+        rr = _r.Random(spec['seed'] * 11 + len(spec['name']))
+        for n in (256, 257, 700):
+            vals = tuple(rr.randrange(0, 5) for _ in range(n))
+            for idkind in ('int', 'none-mixed'):
+                check_groupby(ld, vals, spec['backing'], spec['upstream'], idkind, res)
+                res.count('large_groupbys_checked')
     elif spec['what'] == 'keyless':
         for n in range(0, spec['LK'] + 1):
             for perm in itertools.permutations(range(n)):
